@@ -175,20 +175,28 @@ func heredocOf(r *gen.Rng, t string) string {
 	} else {
 		b.WriteString("<<EOT\n")
 	}
+	ind := ""
+	if flush && r.Bool() { // the flush form may be indented as a whole (every line, interpolated ones too): the loader takes it off again
+		ind = strings.Repeat(" ", 1+r.Intn(6))
+	}
 	for i, l := range lines {
 		switch {
-		case i == 0 && r.Chance(2, 3): // an interpolation (or a directive) right after the opening line
+		case (i == 0 || ind != "") && r.Chance(2, 3): // an interpolation (or a directive) at the start of the line
 			if r.Bool() {
-				b.WriteString("${" + quoteLit(l) + "}\n")
+				b.WriteString(ind + "${" + quoteLit(l) + "}\n")
 			} else {
-				b.WriteString("%{ if true }" + esc(l) + "%{ endif }\n")
+				b.WriteString(ind + "%{ if true }" + esc(l) + "%{ endif }\n")
 			}
 		default:
-			b.WriteString(esc(l) + "\n")
+			if ind != "" && strings.TrimSpace(l) == "" {
+				b.WriteString(l + "\n") // a blank line stays as it is
+			} else {
+				b.WriteString(ind + esc(l) + "\n")
+			}
 		}
 	}
 	if flush {
-		b.WriteString("  ")
+		b.WriteString(ind + "  ")
 	}
 	b.WriteString("EOT\n")
 	return b.String()
